@@ -11,27 +11,27 @@ CLAIMED = {
    text="Deductive proof (all inputs, all alias partitions) that the Go bodies of add/sub/neg/double/halve/select/reduce/Montgomery mul/square/fromMont/butterfly and the predicates of all 23 field packages meet integer-mod-q contracts with canonical results; VCs generated from go/ssa of the current tree, discharged by z3/cvc5.",
    note="Trusted: go/ssa front end, gcv VC generator, SMT solvers, math/bits axioms, pinned moduli. Assembly bodies under default tags are assumed contracts (listed in evidence). Div is proved equal to x*inv(y) with Inverse interpreted; Exp is proved to be x^k / inv(x)^(-k) for every integer k (square-and-multiply invariant, lemma x^(2h) = (x^h)^2 proved by induction, math/big BitLen/Bit by their documented meaning); the portable vector loops are under contract; Inverse/Sqrt/Legendre/BatchInvert are not (listed under not_covered).",
    technique="contract-based deductive verification: weakest-precondition style symbolic execution over go/ssa with //@ contracts, cut points with ghost quotients, SMT (z3 5.1, z3 4.8.12, cvc5 1.0)",
-   design="§5 C01"),
+   design="§10.4 C01 (table), §10.3 (layers), §10.5 (defects)"),
  "C02": dict(
    text="Deductive proof at the ring layer that every branch of the Jacobian and extended-Jacobian point operations (AddAssign, SubAssign, AddMixed, DoubleAssign, Double, DoubleMixed, Neg, Set, FromAffine, FromJacobian, Equal, IsOnCurve, g1JacExtended add/double/addMixed/subMixed/doubleMixed/doubleNegMixed, unsafeFromJacExtended) of G1 and G2 of every curve, and every affine / projective / extended operation of the 8 twisted-Edwards companion curves (Add, MixedAdd, Double, MixedDouble, Neg, Set, FromAffine, FromProj, FromExtended, IsOnCurve), returns a representative of the point prescribed by the textbook chord-and-tangent rules, for every projective representative of the operands (inputs parametrised by affine point and scaling, so that each clause is a polynomial identity), including the identity, equal-point and opposite-point branches; twisted-Edwards clauses are against the textbook law ((x1y2+y1x2)/(1+k), (y1y2-a x1x2)/(1-k)), and the dedicated doublings / d-free mixed addition are proved for operands on the curve by ideal-membership certificates (eqmod).",
    note="Trusted: ring-layer interpretation of coordinate-field methods; Z-lifting; textbook rules computed by the tool; field facts (integral domain, 2 != 0) that turn the exact scaling clauses into finiteness. Not under contract: short-Weierstrass affine Add/Sub/Double wrappers, IsInSubGroup, batch conversions, stark-curve addition formulas, twisted-Edwards Equal/IsZero/scalar multiplication. Two defects found and repaired (stark-curve mixed doubling, twisted-Edwards MixedDouble on a non-normalised point).",
    technique="contract-based deductive verification at an abstract-ring layer: symbolic execution of the formulas to polynomials, normal-form/SMT proof of the representation identities per branch",
-   design="§5 C02"),
+   design="§10.4 C02 (table), §10.3 (layers), §10.5 (defects)"),
  "C06": dict(
    text="Deductive proof at the ring layer: for the towers of bn254, bls12-377, bls12-381, bls24-315, bls24-317, the 6-over-3 towers of bw6-633 and bw6-761 (with the value of their cubic non-residue) and the small-field extensions (koalabear/babybear E2, E4; goldilocks E2), Add/Sub/Double/Neg/Conjugate/Mul/Square/Inverse/MulByNonResidue/MulByElement/MulByE2 of every level and the sparse products (MulBy01, MulBy1, MulBy12, MulBy034, MulBy34, Mul034By034, Mul34By34, MulBy01234, MulBy014, Mul014By014, MulBy01245, ...) equal the schoolbook product in R[X]/(X^k - nr) computed by the tool from the documented defining polynomials; identities are proved over the integers (Z-lifting) by z3/cvc5 for every alias partition, including operands pointing into the receiver where the contract says so.",
    note="Trusted: ring-layer interpretation of lower-layer methods by their own contracts; Z-lifting; documented tower polynomials. Inverse is proved in the form x*z == N(x)*inv(N(x)) (norm one level down). Not under contract: Div/Sqrt/Exp/BatchInvert/Frobenius/cyclotomic squarings/torus compression; amd64 E2 assembly kernels are assumed contracts.",
    technique="contract-based deductive verification at an abstract-ring layer (go/ssa symbolic execution yields polynomials; SMT proves the polynomial identities)",
-   design="§5 C06"),
+   design="§10.4 C06 (table), §10.3 (layers), §10.5 (defects)"),
  "C07": dict(
    text="Deductive proof of acceptance-implies-check clauses for the G1 point decoders (setBytes, unsafeSetCompressedBytes) of every curve with the generated decoder and the G2 decoders (setBytes) of 7 curves: nil error only if the flag pattern is valid, coordinates decoded canonically, infinity encodings are all-zero, raw points passed the subgroup test or (when disabled) the on-curve test, compressed points have Y = +-sqrt(X^3+b) with the sign selected by the flag and passed the subgroup test when enabled; byte counts match; every slice/index operation is a discharged bounds obligation (short input gives an error, never a panic).",
    note="Trusted: coordinate decoders opaque at this layer (proved under C08), IsInSubGroup assumed pure, Sqrt assumed to return a root or nil. G2 over an extension field: all 2k / k base-field coordinates decoded canonically, Legendre and Sqrt applied to the same value (sign selection and Y^2 = X^3 + b' not stated). Not under contract: encoders and round trips, streaming Encoder/Decoder, secp256k1 and twisted-Edwards decoders. One open known finding (stark-curve infinity payload).",
    technique="contract-based deductive verification: path-split symbolic execution with ghost capture of callee results at call-site cut points (acceptance-implies-check obligations), bounds obligations",
-   design="§5 C07"),
+   design="§10.4 C07 (table), §10.3 (layers), §10.5 (defects)"),
  "C08": dict(
    text="Deductive proof that the byte-order codecs (BigEndian/LittleEndian Element and PutElement, Bytes, SetBytesCanonical), Montgomery conversions (toMont/fromMont/Bits), integer setters (SetUint64/SetInt64/NewElement), Uint64/IsUint64/FitsOnOneWord, Cmp and LexicographicallyLargest of all 23 field packages meet contracts over the regular value reg(v); decoders accept exactly encodings below q; round-trip laws are lemma functions verified modularly from the encoder and decoder contracts.",
    note="Trusted: as C01 plus encoding/binary axioms and the definition of reg (existence from gcd(R,q)=1, q odd checked). Not under contract: SetBytes/SetBigInt/BigInt/Text/SetString/JSON (math/big, strconv) and the vector readers/writers.",
    technique="contract-based deductive verification (go/ssa symbolic execution, //@ contracts, verif-tagged lemma functions, SMT)",
-   design="§5 C08"),
+   design="§10.4 C08 (table), §10.3 (layers), §10.5 (defects)"),
  "C20": dict(
    text="Deductive proof at the ring layer for the dense-polynomial packages of 8 fields and the IOP polynomial objects of 7 fields: Polynomial.Eval equals Horner's value of sum p[j] X^j (loop invariant against a recursive specification); Add/Sub/Scale/ScaleInPlace/AddConstantInPlace/SubConstantInPlace/Set/Clone/Equal/SetZero, MultiLin.Fold/Add/Sum/Clone and EvalEq act coefficient-wise as defined, with the prescribed result length, for every identical-slice aliasing of the operands; iop Polynomial.Evaluate hands exactly base*w^shift (w = fft.Generator(Size), any integer shift, base = x or x/coset) to the evaluation of the shared coefficient vector; Clone/ShallowClone/NewPolynomial/Shift preserve shift, size, coset, form and coefficients; GetCoeff reads entry (i + (n/size)*shift) mod n in the Regular layout; canonical/regular evaluation is Horner.",
    note="Trusted: ring layer over fr.Element; math/big.NewInt and Element.Exp interpreted (uninterpreted power); fft.Generator opaque (captured). Preconditions: non-empty vectors for Eval/Sum; GetCoeff for 0 <= shift <= 2^20. Not under contract: Lagrange-basis and bit-reversed evaluation, FFT-based conversions, ratios, quotient, expressions, serialisation, InterpolateOnRange, MultiLin.Evaluate/Eq. Two defects found and repaired (Evaluate ignored shifts outside 0..5; Add panicked on an empty destination).",
@@ -61,27 +61,27 @@ CLAIMED = {
    text="Deductive proof for MiMC of all 8 curves (encrypt = documented number of rounds of x -> (x+k+c_i)^d then +k, by loop invariant against a recursive specification; checksum = Miyaguchi-Preneel fold; Write never slices its input beyond len(p), accepts only whole blocks or one short left-padded block and reports consumed bytes; SetState and Sum flush pending blocks) and for the Poseidon2 external/internal linear layers (published matrices, widths 2 and 3) and S-box of the 8 curve-field instances.",
    note="Trusted: ring layer over fr.Element; documented MiMC exponents/round counts and Poseidon2 matrices; the round-constant tables are fixed arrays whose derivation is not under contract; interface fr.ByteOrder assumed (its implementations are proved under C08). Not under contract: Poseidon2 round schedule and wrappers, small-field Poseidon2, ring-SIS, Merkle-Damgard wrapper, registry.",
    technique="contract-based deductive verification: loop invariants against recursive SMT specification functions, strict slice-bound obligations, ring-layer identities",
-   design="§5 C14"),
+   design="§10.4 C14 (table), §10.3 (layers), §10.5 (defects)"),
  "C15": dict(
    text="Deductive proof of the guard, error-path and ownership clauses of the Fiat-Shamir transcript: Bind refuses unknown / computed challenges with the documented errors and never retains the caller's slice; ComputeChallenge refuses unknown challenges, computes a challenge at position > 0 only when the last computed challenge is its immediate predecessor, and returns only freshly allocated slices (no aliasing with transcript state).",
    note="The map of challenges and the bound values are not modelled (lookups yield arbitrary records), so the hashed content of a challenge is NOT under contract; hash.Hash is an assumed interface contract. Ownership is decided by the VC generator's escape tracking.",
    technique="contract-based deductive verification with opaque map/aggregate-slice modelling, nullable pointers, escape/ownership obligations",
-   design="§5 C15"),
+   design="§10.4 C15 (table), §10.3 (layers), §10.5 (defects)"),
  "C16": dict(
-   text="Deductive proof for the Vortex Poseidon2 Merkle proof verifier: MerkleProof.Verify returns nil exactly when the fold of the leaf along the proof (left/right chosen by the bits of the index; loop invariant against a recursive specification with the compression function uninterpreted) equals the root and the index lies in [0, 2^len(proof)).",
-   note="Trusted: CompressPoseidon2 is a deterministic function of its two arguments (assumed contract); i >> n == 0 iff 0 <= i < 2^n. Not under contract: BuildMerkleTree / Open (nested slices, parallel.Execute) and the accumulator/merkletree package (bounded stand-in not built).",
+   text="Deductive proof for the Vortex Poseidon2 Merkle proof verifier: MerkleProof.Verify returns nil exactly when the fold of the leaf along the proof (left/right chosen by the bits of the index; loop invariant against a recursive specification with the compression function uninterpreted) equals the root and the index lies in [0, 2^len(proof)); and for the RFC-6962-shaped accumulator: VerifyProof is total for every proof length, index and leaf count (no index out of range, no division by zero) and accepts only if a root was given, the index is below the leaf count, the proof is non-empty and the final comparison against the given root succeeded.",
+   note="Trusted: CompressPoseidon2 is a deterministic function of its two arguments (assumed contract); i >> n == 0 iff 0 <= i < 2^n; accumulator: leafSum / nodeSum / bytes.Equal opaque, proof-set elements not modelled. Not under contract: BuildMerkleTree / Open (nested slices, parallel.Execute), the accumulator's builder and the order in which VerifyProof combines siblings. Two defects found and repaired (Vortex index range; accumulator divide by zero).",
    technique="contract-based deductive verification with an opaque-value layer (uninterpreted hash sort), loop invariant over a recursive specification function",
-   design="§5 C16"),
+   design="§10.4 C16 (table), §10.3 (layers), §10.5 (defects)"),
  "C17": dict(
    text="Deductive proof of acceptance-implies-check contracts: the Vortex verifier returns nil only if every prescribed check was made and passed on the values the relation speaks about (claims vs. uAlpha, codeword test, and for every selected column: range, consistency with uAlpha, SIS hash, Merkle authentication - as an end-of-iteration obligation); Pedersen Verify / BatchVerifyMultiVk of all curves: subgroup tests on every commitment and proof (quantified loop invariants), pairing check on exactly the prescribed arguments (single verify), lengths.",
    note="Opaque-call layer: callees return arbitrary values (assumed not to write through arguments); IsInSubGroup declared pure. Sufficiency of the prescribed checks and completeness are not proved. SHPLONK, fflonk, permutation, plookup, FRI and mpcsetup verifiers are not under contract.",
    technique="contract-based deductive verification: ghost capture of callee arguments/results at call-site cut points, loop invariants with a shape-independent iteration counter, end-of-iteration obligations",
-   design="§5 C17"),
+   design="§10.4 C17 (table), §10.3 (layers), §10.5 (defects)"),
  "C19": dict(
-   text="Deductive proof per alias partition: every field-element function under contract with two or more pointer operands (Add, Sub, Double, Neg, Select, Mul, Square, _mulGeneric, Set, Equal, NotEqual, Cmp, ...) is verified once for every set partition of its pointer operands with exact points-to, against postconditions over old() values and a frame clause that forbids writes to non-destination operands.",
-   note="Covers the prime-field layer of all 23 packages (portable Go bodies). Extension-field, point, polynomial and vector methods are not yet under contract (not_covered); assembly leaf methods are outside (C09).",
-   technique="contract-based deductive verification with alias-partition enumeration and frame obligations",
-   design="§5 C19"),
+   text="Deductive proof per alias partition: every function under contract with two or more pointer operands of one type, or two or more slice operands of one element type, is verified once for every set partition of those operands (exact points-to; slices: identical-slice aliasing) against postconditions over old() values and a frame clause that forbids writes to non-destination operands: the prime-field layer of all 23 packages (Add, Sub, Double, Neg, Select, Mul, Square, Div, Set, Equal, Cmp, ..., and the portable vector loops), the extension towers of every curve (including operands pointing into the receiver for the sparse products), the small-field extensions and the twisted-Edwards point operations.",
+   note="Short-Weierstrass point and polynomial functions are verified per alias partition under C02 / C20 (same mechanism) and not repeated here. Partially overlapping slices are outside the model; assembly leaf routines are outside (assumed contracts; a bounded check per alias partition is part of the C01 thorough tier).",
+   technique="contract-based deductive verification with alias-partition enumeration (pointer operands, identical slices, interior pointers) and frame obligations",
+   design="§10.4 C19 (table), §10.3 (layers), §10.5 (defects)"),
 }
 
 NA = {
